@@ -618,15 +618,7 @@ package go_clipper2
 //@   props C03
 //@   panicfree
 
-//@ func ClipperOffset.AddPaths
-//@   props C03
-//@   panicfree
-
 //@ func ClipperOffset.SetDeltaCallback
-//@   props C03
-//@   panicfree
-
-//@ func ClipperOffset.getPerpendic
 //@   props C03
 //@   panicfree
 
@@ -662,15 +654,7 @@ package go_clipper2
 //@   props C03
 //@   panicfree
 
-//@ func NewClipperOffset
-//@   props C03
-//@   panicfree
-
 //@ func NewFloatPoint64
-//@   props C03
-//@   panicfree
-
-//@ func NewGroup
 //@   props C03
 //@   panicfree
 
@@ -691,10 +675,6 @@ package go_clipper2
 //@   panicfree
 
 //@ func NewOutPt2
-//@   props C03
-//@   panicfree
-
-//@ func NewPolyPathBase
 //@   props C03
 //@   panicfree
 
@@ -782,27 +762,7 @@ package go_clipper2
 //@   props C03
 //@   panicfree
 
-//@ func PolyPathBase.AddChild
-//@   props C03
-//@   panicfree
-
-//@ func PolyPathBase.Clear
-//@   props C03
-//@   panicfree
-
-//@ func PolyPathBase.Count
-//@   props C03
-//@   panicfree
-
 //@ func PolyPathBase.GetChildren
-//@   props C03
-//@   panicfree
-
-//@ func PolyPathBase.IsHole
-//@   props C03
-//@   panicfree
-
-//@ func PolyPathBase.Level
 //@   props C03
 //@   panicfree
 
@@ -970,10 +930,6 @@ package go_clipper2
 //@   props C03
 //@   panicfree
 
-//@ func getUnitNormal
-//@   props C03
-//@   panicfree
-
 //@ func hasHorzOverlap
 //@   props C03
 //@   panicfree
@@ -987,14 +943,6 @@ package go_clipper2
 //@   panicfree
 
 //@ func hypotenuse
-//@   props C03
-//@   panicfree
-
-//@ func insertAtIndex
-//@   props C03
-//@   panicfree
-
-//@ func intersectPoint
 //@   props C03
 //@   panicfree
 
@@ -1023,22 +971,6 @@ package go_clipper2
 //@   panicfree
 
 //@ func normalizeVector
-//@   props C03
-//@   panicfree
-
-//@ func pointsEqual
-//@   props C03
-//@   panicfree
-
-//@ func ptsReallyClose
-//@   props C03
-//@   panicfree
-
-//@ func reflectPoint
-//@   props C03
-//@   panicfree
-
-//@ func removeAtIndex
 //@   props C03
 //@   panicfree
 
@@ -1132,3 +1064,211 @@ package go_clipper2
 //@   props C13
 //@   requires dom(pt,61) && dom(line1,61) && dom(line2,61)
 //@   ensures [nonneg] result >= 0
+
+// ---------------------------------------------------------------------------------
+// C04: PolyTree node API;  C02: emission predicates
+// ---------------------------------------------------------------------------------
+
+//@ func PolyPathBase.AddChild
+//@   props C04 C03
+//@   ensures [child] result != nil && result != p && result.parent == p && same(result.polygon, pth) && len(result.childs) == 0
+//@   ensures [appended-once] len(p.childs) == old(len(p.childs)) + 1 && p.childs[len(p.childs)-1] == result && forall(k, 0, old(len(p.childs)), p.childs[k] == old(p.childs)[k])
+//@   ensures [frame] p.parent == old(p.parent) && same(p.polygon, old(p.polygon))
+
+//@ func PolyPathBase.Level
+//@   props C04 C03
+//@   arith math
+//@   loop 0 invariant [depth] result >= 0 && (result == 0 ==> pp == p.parent) && (result >= 1 ==> p.parent != nil) && (result == 1 ==> pp == p.parent.parent) && (result >= 2 ==> p.parent.parent != nil) && (result == 2 ==> pp == p.parent.parent.parent) && (result >= 3 ==> p.parent.parent.parent != nil)
+//@   loop 0 step [walk-up] result == old(result) + 1 && pp == old(pp).parent
+//@   ensures [root] (p.parent == nil) == (result == 0)
+//@   ensures [level-1] (p.parent != nil && p.parent.parent == nil) == (result == 1)
+//@   ensures [level-2] (p.parent != nil && p.parent.parent != nil && p.parent.parent.parent == nil) == (result == 2)
+
+//@ func PolyPathBase.IsHole
+//@   props C04 C03
+//@   ensures [root-not-hole] p.parent == nil ==> !result
+//@   ensures [outer-not-hole] (p.parent != nil && p.parent.parent == nil) ==> !result
+//@   ensures [nested-once-is-hole] (p.parent != nil && p.parent.parent != nil && p.parent.parent.parent == nil) ==> result
+
+//@ func PolyPathBase.Clear
+//@   props C04 C12 C03
+//@   ensures [cleared] len(p.childs) == 0 && p.parent == old(p.parent)
+
+//@ func PolyPathBase.Count
+//@   props C04 C03
+//@   ensures [count] result == len(p.childs)
+
+//@ spec closePts(a, b Point64) bool = absI(a.X-b.X) <= 1 && absI(a.Y-b.Y) <= 1
+//@ spec tinyTri(op *OutPt) bool = op.next.next == op.prev && (closePts(op.prev.pt, op.next.pt) || closePts(op.pt, op.next.pt) || closePts(op.pt, op.prev.pt))
+
+//@ func ptsReallyClose
+//@   props C02 C03
+//@   requires dom(pt1, 61) && dom(pt2, 61)
+//@   ensures [close] result == closePts(pt1, pt2)
+
+//@ func isVerySmallTriangle
+//@   props C02
+//@   requires op != nil && op.next != nil && op.prev != nil && op.next.next != nil
+//@   requires dom(op.pt, 61) && dom(op.next.pt, 61) && dom(op.prev.pt, 61)
+//@   ensures [tiny] result == tinyTri(op)
+
+//@ func isValidClosedPath
+//@   props C02
+//@   requires op == nil || (op.next != nil && op.prev != nil && op.next.next != nil && dom(op.pt, 61) && dom(op.next.pt, 61) && dom(op.prev.pt, 61))
+//@   ensures [valid] result == (op != nil && op.next != op && (op.next != op.prev || !tinyTri(op)))
+//@   ensures [at-least-2] result ==> op.next != op
+
+//@ spec ringOK(x *OutPt) bool = x != nil && x.next != nil && x.prev != nil && x.next.next != nil && dom(x.pt, 61) && dom(x.next.pt, 61) && dom(x.prev.pt, 61)
+
+//@ func clipperBase.buildPath
+//@   props C02 C09
+//@   nosafety
+//@   assumes op != nil ==> (ringOK(op) && ringOK(op.next))
+//@   loop 0 invariant [no-dups] len(*path) >= 1 && lastPt == (*path)[len(*path)-1] && forall(k, 1, len(*path), (*path)[k] != (*path)[k-1])
+//@   loop 0 step [walk] op2 == ite(reverse, old(op2).prev, old(op2).next) && len(*path) == old(len(*path)) + ite(old(op2).pt != old(lastPt), 1, 0)
+//@   ensures [degenerate] (op == nil || op.next == op || (!isOpen && op.next == op.prev)) ==> !result
+//@   ensures [no-consecutive-duplicates] result ==> (len(*path) >= 1 && forall(k, 1, len(*path), (*path)[k] != (*path)[k-1]))
+//@   ensures [tiny-triangle-rejected] !(op == nil || op.next == op || (!isOpen && op.next == op.prev)) ==> result == (len(*path) != 3 || isOpen || !tinyTri(ite(reverse, op, op.next)))
+
+//@ func clipperBase.buildPaths
+//@   props C02 C09
+//@   nosafety
+//@   arith math
+//@   loop 0 step [routing] i == old(i) + 1 && (old(c.outrecList[i].pts == nil) ==> (same(*solutionClosed, old(*solutionClosed)) && same(*solutionOpen, old(*solutionOpen)))) && (old(c.outrecList[i].pts != nil && c.outrecList[i].isOpen) ==> same(*solutionClosed, old(*solutionClosed))) && (old(c.outrecList[i].pts != nil && !c.outrecList[i].isOpen) ==> same(*solutionOpen, old(*solutionOpen)))
+//@   ensures [success] result
+
+//@ func clipperBase.recursiveCheckOwners
+//@   props C04
+//@   nosafety
+//@   requires outrec != nil
+//@   ensures [added-once] old(outrec.polypath) != nil ==> outrec.polypath == old(outrec.polypath)
+
+// ---------------------------------------------------------------------------------
+// C03: list helpers whose explicit panics are unreachable;  C05/C10: offset bookkeeping
+// ---------------------------------------------------------------------------------
+
+//@ func removeAtIndex
+//@   props C03 C05
+//@   ensures [ok] (0 <= index && index < len(slice)) ==> (result1 == nil && len(result0) == len(slice)-1 && forall(k, 0, index, same(result0[k], slice[k])) && forall(k, index, len(slice)-1, same(result0[k], slice[k+1])))
+//@   ensures [err] !(0 <= index && index < len(slice)) ==> (result1 != nil && same(result0, slice))
+
+//@ func insertAtIndex
+//@   props C03
+//@   ensures [ok] (0 <= index && index <= len(slice)) ==> (result1 == nil && len(result0) == len(slice)+1 && same(result0[index], value) && forall(k, 0, index, same(result0[k], slice[k])) && forall(k, index, len(slice), same(result0[k+1], slice[k])))
+//@   ensures [err] !(0 <= index && index <= len(slice)) ==> (result1 != nil && same(result0, slice))
+
+//@ func binarySearch
+//@   props C03
+//@   loop 0 invariant [range] 0 <= low && low <= len(arr) && -1 <= high && high < len(arr) && low <= high+1
+//@   loop 0 decreases high - low + 1
+//@   ensures [found] result >= 0 ==> (result < len(arr) && same(arr[result], target))
+//@   ensures [insertion-point] result < 0 ==> (0 <= -(result+1) && -(result+1) <= len(arr))
+
+//@ func clipperBase.insertScanline
+//@   props C03
+//@   ensures [no-shrink] len(c.scanlineList) >= old(len(c.scanlineList))
+
+//@ func clipperBase.popScanline
+//@   props C03
+//@   loop 0 invariant [idx] -1 <= cnt && cnt < len(c.scanlineList) && len(c.scanlineList) < old(len(c.scanlineList))
+//@   loop 0 decreases cnt + 1
+//@   ensures [empty] old(len(c.scanlineList)) == 0 ==> !result1
+//@   ensures [pops-last] old(len(c.scanlineList)) > 0 ==> (result1 && result0 == old(c.scanlineList[len(c.scanlineList)-1]) && len(c.scanlineList) < old(len(c.scanlineList)))
+
+//@ func StripDuplicates
+//@   props C05 C10 C03 C12
+//@   pure
+//@   loop 0 invariant [shape] 1 <= i && i <= cnt && cnt == len(path) && len(result) >= 1 && len(result) <= i && result[0] == path[0] && lastPt == result[len(result)-1] && lastPt == path[i-1]
+//@   loop 0 invariant [no-dups] forall(k, 1, len(result), result[k] != result[k-1])
+//@   loop 0 invariant [members] forall(k, 0, len(result), memberOf(result[k], path))
+//@   loop 0 decreases cnt - i
+//@   ensures [empty] len(path) == 0 ==> len(result) == 0
+//@   ensures [no-consecutive-duplicates] forall(k, 1, len(result), result[k] != result[k-1])
+//@   ensures [closed-no-closing-duplicate] (isClosedPath && len(result) >= 2) ==> result[len(result)-1] != result[0]
+//@   ensures [members] forall(k, 0, len(result), memberOf(result[k], path))
+//@   ensures [first-kept] (len(path) > 0 && len(result) > 0) ==> result[0] == path[0]
+//@   ensures [open-last-kept] (!isClosedPath && len(path) > 0) ==> (len(result) >= 1 && result[len(result)-1] == path[len(path)-1])
+
+//@ spec onLineD(p, a, b PointD) bool = (p.Y - a.Y)*(b.X - a.X) == (b.Y - a.Y)*(p.X - a.X)
+
+//@ func intersectPoint
+//@   props C05 C10 C03
+//@   ensures [vertical-1] (pt1a.X == pt1b.X && absI(pt2a.X - pt2b.X) > 1e-12) ==> (result.X == pt1a.X && onLineD(result, pt2a, pt2b))
+//@   ensures [vertical-2] (pt2a.X == pt2b.X && absI(pt1a.X - pt1b.X) > 1e-12) ==> (result.X == pt2a.X && onLineD(result, pt1a, pt1b))
+//@   ensures [general] (absI(pt1a.X - pt1b.X) > 1e-12 && absI(pt2a.X - pt2b.X) > 1e-12 && absI((pt1b.Y - pt1a.Y)/(pt1b.X - pt1a.X) - (pt2b.Y - pt2a.Y)/(pt2b.X - pt2a.X)) > 1e-12) ==> (onLineD(result, pt1a, pt1b) && onLineD(result, pt2a, pt2b))
+
+//@ func reflectPoint
+//@   props C05 C03
+//@   ensures [midpoint] result.X + pt.X == 2*pivot.X && result.Y + pt.Y == 2*pivot.Y
+
+//@ func getUnitNormal
+//@   props C05 C10 C03
+//@   pure
+//@   requires dom(pt1, 29) && dom(pt2, 29)
+//@   ensures [zero] pt1 == pt2 ==> (result.X == 0 && result.Y == 0)
+//@   ensures [perpendicular] result.X * toReal(pt2.X - pt1.X) + result.Y * toReal(pt2.Y - pt1.Y) == 0
+//@   ensures [unit] pt1 != pt2 ==> result.X*result.X + result.Y*result.Y == 1
+//@   ensures [right-hand] pt1 != pt2 ==> result.X * toReal(pt2.Y - pt1.Y) - result.Y * toReal(pt2.X - pt1.X) > 0
+
+//@ func ClipperOffset.buildNormals
+//@   props C05 C10 C03
+//@   requires forall(k, 0, len(path), dom(path[k], 29))
+//@   loop 0 invariant [each] 0 <= i && (i <= cnt-1 || cnt == 0) && cnt == len(path) && len(co.normals) == i && forall(k, 0, i, co.normals[k] == getUnitNormal(path[k], path[k+1]))
+//@   loop 0 decreases cnt - i
+//@   ensures [length] len(co.normals) == len(path)
+//@   ensures [each] forall(k, 0, len(path)-1, co.normals[k] == getUnitNormal(path[k], path[k+1]))
+//@   ensures [closing] len(path) > 0 ==> co.normals[len(path)-1] == getUnitNormal(path[len(path)-1], path[0])
+
+//@ func ClipperOffset.getPerpendic
+//@   props C05 C10 C03
+//@   requires absI(pt.X) <= pow2(52) && absI(pt.Y) <= pow2(52) && absI(norm.X*co.groupDelta) <= 4503599627370496.0 && absI(norm.Y*co.groupDelta) <= 4503599627370496.0
+//@   ensures [within-half] absI(toReal(result.X) - (toReal(pt.X) + norm.X*co.groupDelta)) <= 0.5 && absI(toReal(result.Y) - (toReal(pt.Y) + norm.Y*co.groupDelta)) <= 0.5
+
+//@ func NewClipperOffset
+//@   props C05 C07 C03
+//@   ensures [fields] result != nil && result.MiterLimit == ite(miterLimit == 0, 2.0, miterLimit) && result.ArcTolerance == arcTolerance && result.PreserveCollinear == preserveCollinear && result.ReverseSolution == reverseSolution && len(result.groupList) == 0 && result.deltaCallback == nil
+
+//@ func NewGroup
+//@   props C05 C10 C03
+//@   requires forall(k, 0, len(paths), domPath(paths[k], 29) && (len(paths[k]) <= 7 || noWrap(paths[k])))
+//@   loop 0 invariant [stripped] len(group.inPaths) == _i && group != nil && group.joinType == joinType && group.endType == endType && forall(k, 0, _i, same(group.inPaths[k], StripDuplicates(paths[k], isGroupJoined)))
+//@   ensures [fields] result != nil && result.joinType == joinType && result.endType == ite(len(endTypeVal) > 0, endTypeVal[0], Polygon)
+//@   ensures [stripped] len(result.inPaths) == len(paths) && forall(k, 0, len(paths), same(result.inPaths[k], StripDuplicates(paths[k], result.endType == Polygon || result.endType == Joined)))
+//@   ensures [open-groups] result.endType != Polygon ==> (result.lowestPathIdx == -1 && !result.pathsReversed)
+
+//@ func ClipperOffset.AddPaths
+//@   props C05 C12 C03
+//@   requires forall(k, 0, len(paths), domPath(paths[k], 29) && (len(paths[k]) <= 7 || noWrap(paths[k])))
+//@   ensures [empty] len(paths) == 0 ==> same(co.groupList, old(co.groupList))
+//@   ensures [appended] len(paths) > 0 ==> (len(co.groupList) == old(len(co.groupList)) + 1 && co.groupList[len(co.groupList)-1] != nil && co.groupList[len(co.groupList)-1].joinType == joinType && co.groupList[len(co.groupList)-1].endType == endType)
+
+//@ func ClipperOffset.doBevel
+//@   props C05 C10
+//@   nosafety
+//@   requires 0 <= j && j < len(path) && 0 <= k && k < len(path) && len(co.normals) == len(path)
+//@   requires absI(path[j].X) <= pow2(52) && absI(path[j].Y) <= pow2(52)
+//@   ensures [two-points] len(co.pathOut) == old(len(co.pathOut)) + 2 && forall(m, 0, old(len(co.pathOut)), co.pathOut[m] == old(co.pathOut)[m])
+//@   ensures [end-cap] j == k ==> (co.pathOut[len(co.pathOut)-2].X == truncF(toReal(path[j].X) - absI(co.groupDelta)*co.normals[j].X) && co.pathOut[len(co.pathOut)-1].X == truncF(toReal(path[j].X) + absI(co.groupDelta)*co.normals[j].X) && co.pathOut[len(co.pathOut)-2].Y == truncF(toReal(path[j].Y) - absI(co.groupDelta)*co.normals[j].Y) && co.pathOut[len(co.pathOut)-1].Y == truncF(toReal(path[j].Y) + absI(co.groupDelta)*co.normals[j].Y))
+//@   ensures [join] j != k ==> (co.pathOut[len(co.pathOut)-2].X == truncF(toReal(path[j].X) + co.groupDelta*co.normals[k].X) && co.pathOut[len(co.pathOut)-1].X == truncF(toReal(path[j].X) + co.groupDelta*co.normals[j].X) && co.pathOut[len(co.pathOut)-2].Y == truncF(toReal(path[j].Y) + co.groupDelta*co.normals[k].Y) && co.pathOut[len(co.pathOut)-1].Y == truncF(toReal(path[j].Y) + co.groupDelta*co.normals[j].Y))
+
+//@ func ClipperOffset.doMiter
+//@   props C05
+//@   nosafety
+//@   requires 0 <= j && j < len(path) && 0 <= k && k < len(path) && len(co.normals) == len(path) && cosA > -1
+//@   requires absI(path[j].X) <= pow2(52) && absI(path[j].Y) <= pow2(52)
+//@   ensures [one-point] len(co.pathOut) == old(len(co.pathOut)) + 1
+//@   ensures [miter-vertex] absI(toReal(co.pathOut[len(co.pathOut)-1].X) - (toReal(path[j].X) + (co.normals[k].X+co.normals[j].X)*(co.groupDelta/(cosA+1)))) <= 0.5 && absI(toReal(co.pathOut[len(co.pathOut)-1].Y) - (toReal(path[j].Y) + (co.normals[k].Y+co.normals[j].Y)*(co.groupDelta/(cosA+1)))) <= 0.5
+
+//@ func ClipperOffset.doGroupOffset
+//@   props C05 C10
+//@   nosafety
+//@   requires group != nil
+//@   assumes forall(k, 0, len(group.inPaths), domPath(group.inPaths[k], 29))
+//@   assert after absDelta [delta-sign] (group.endType == Polygon ==> co.groupDelta == ite(group.pathsReversed, -co.delta, co.delta)) && (group.endType != Polygon ==> co.groupDelta == absI(co.delta)) && absDelta == absI(co.groupDelta)
+
+//@ func ClipperOffset.executeInternal
+//@   props C05 C12
+//@   nosafety
+//@   assumes forall(k, 0, len(co.groupList), co.groupList[k] != nil)
+//@   loop 0.0 step [copies-input] len(*co.solution) == old(len(*co.solution)) + 1 && same((*co.solution)[len(*co.solution)-1], path)
+//@   assert after c.reverseSolution [orientation-pairing] c.reverseSolution == (co.ReverseSolution != pathsReversed) && fillRule == ite(pathsReversed, Negative, Positive) && c.preserveCollinear == co.PreserveCollinear
